@@ -50,14 +50,18 @@ def dumpPron (p : Pron) : Xml :=
     p.text []
 def dumpTag (t : Tag) : Xml := .elem "Tag" [("category", t.category)] t.text []
 
+/-- children of a form-like element: pronunciations (LMF ≥ 1.1), then tags -/
+def pronTagKids (v : String) (ps : List Pron) (ts : List Tag) : List Xml :=
+  (if atLeast11 v then ps.map dumpPron else []) ++ ts.map dumpTag
+
 def dumpLemma (v : String) (l : Lemma) : Xml :=
-  let kids := (if atLeast11 v then l.prons.map dumpPron else []) ++ l.tags.map dumpTag
+  let kids := pronTagKids v l.prons l.tags
   if l.external then .elem "ExternalLemma" [] "" kids
   else .elem "Lemma" ([("writtenForm", l.form)] ++ optAttr "script" l.script ++ [("partOfSpeech", l.pos)]) "" kids
 
 def dumpForm (v : String) (f : Form) : Xml :=
   let idA := if atLeast11 v then optAttr "id" f.id else []
-  let kids := (if atLeast11 v then f.prons.map dumpPron else []) ++ f.tags.map dumpTag
+  let kids := pronTagKids v f.prons f.tags
   if f.external then .elem "ExternalForm" idA "" kids
   else .elem "Form" (idA ++ [("writtenForm", f.form)] ++ optAttr "script" f.script) "" kids
 
@@ -65,7 +69,20 @@ def dumpRel (name : String) (r : Relation) : Xml :=
   .elem name ([("target", r.target), ("relType", r.relType)] ++ metaAttrs r.md) "" []
 def dumpExample (e : Example) : Xml :=
   .elem "Example" (metaAttrs e.md ++ optAttr "language" e.language) e.text []
-def dumpCount (c : Count) : Xml := .elem "Count" (metaAttrs c.md) (toString c.value) []
+/-- `str(int)` / `int(str)` on characters (decimal, optional leading minus) -/
+def showInt : Int → List Char
+  | .ofNat n => Nat.toDigits 10 n
+  | .negSucc n => '-' :: Nat.toDigits 10 (n + 1)
+def digitVal (c : Char) : Option Nat := if '0' ≤ c ∧ c ≤ '9' then some (c.toNat - 48) else none
+def readNatAux : Nat → List Char → Option Nat
+  | acc, [] => some acc
+  | acc, c :: t => match digitVal c with | some d => readNatAux (acc * 10 + d) t | none => none
+def readNat (l : List Char) : Option Nat := if l.isEmpty then none else readNatAux 0 l
+def readInt : List Char → Option Int
+  | '-' :: ds => (readNat ds).map (fun n => -(Int.ofNat n))
+  | ds => (readNat ds).map Int.ofNat
+
+def dumpCount (c : Count) : Xml := .elem "Count" (metaAttrs c.md) (String.ofList (showInt c.value)) []
 
 def dumpSense (v : String) (s : Sense) : Xml :=
   let kids := s.relations.map (dumpRel "SenseRelation") ++ s.examples.map dumpExample ++ s.counts.map dumpCount
@@ -153,10 +170,13 @@ def singleValued (name : String) : Bool :=
 
 /-- the start handler's structural checks, for one parent: every child is an element of the
 version, and no two single-valued children share a key -/
+def nodupB : List String → Bool
+  | [] => true
+  | a :: t => !t.contains a && nodupB t
+
 def childrenOk (v : String) (cs : List Xml) : Bool :=
   cs.all (fun c => (validElems v).contains c.name) &&
-  (let singles := (cs.filter (fun c => singleValued c.name)).map (fun c => keyOf c.name)
-   singles.eraseDups.length == singles.length)
+  nodupB ((cs.filter (fun c => singleValued c.name)).map (fun c => keyOf c.name))
 
 mutual
 def treeOk (v : String) : Xml → Bool
@@ -172,13 +192,20 @@ def reqAttr (x : Xml) (k : String) : R String :=
 def kids (x : Xml) (names : List String) : List Xml := x.children.filter (fun c => names.contains c.name)
 
 /-- metadata extraction of the start handler for `_META_ELEMS`: `meta or None` -/
-def metaOf (x : Xml) : Option Meta :=
-  let m := x.attrs.filterMap (fun (k, v) =>
-    if k.startsWith "dc:" && dcKeys.contains (k.drop 3).toString then some ((k.drop 3).toString, v)
-    else if k == "status" || k == "note" || k == "confidenceScore" then some (k, v) else none)
-  if m.isEmpty then none else some m
+def pickKey (k : String) : Option String :=
+  if k.toList.take 3 == ['d', 'c', ':'] && dcKeys.contains (String.ofList (k.toList.drop 3))
+  then some (String.ofList (k.toList.drop 3))
+  else if k == "status" || k == "note" || k == "confidenceScore" then some k else none
+def metaPick (kv : String × String) : Option (String × String) := (pickKey kv.1).map (fun k => (k, kv.2))
+def mkMeta (l : Meta) : Option Meta := if l.isEmpty then none else some l
+def metaOf (x : Xml) : Option Meta := mkMeta (x.attrs.filterMap metaPick)
 
-def splitSp (s : String) : List String := (s.splitOn " ").filter (· != "")
+/-- `s.split(' ')` without the empty pieces, on characters -/
+def splitCharsAux : List Char → List Char → List (List Char)
+  | cur, [] => [cur.reverse]
+  | cur, c :: rest => if c == ' ' then cur.reverse :: splitCharsAux [] rest else splitCharsAux (c :: cur) rest
+def splitSp (s : String) : List String :=
+  ((splitCharsAux [] s.toList).filter (fun w => !w.isEmpty)).map String.ofList
 /-- `False if x == 'false' else True`, applied only to truthy strings -/
 def boolAttr (o : Option String) : Option Bool :=
   match o with
@@ -212,7 +239,7 @@ def loadRel (x : Xml) : R Relation := do
   return { target := ← reqAttr x "target", relType := ← reqAttr x "relType", md := metaOf x }
 def loadExample (x : Xml) : Example := { text := x.text, language := attr x "language", md := metaOf x }
 def loadCount (x : Xml) : R Count :=
-  match x.text.toInt? with
+  match readInt x.text.toList with
   | some n => .ok { value := n, md := metaOf x }
   | none => .error "Count is not an integer"
 
